@@ -85,6 +85,19 @@ MapOut(api, o) == IF api \notin {"MapReduce", "MapReduceChan"} /\ o = Err("NOOUT
 
 Outcomes(s) == {MapOut(s.api, o) : o \in CauseOutcomes(s) \cup NormalOutcomes(s)}
 
+\* Ordering knowledge (directed scenarios): once a cancel / the context is known to have been RECORDED by the call
+\* before the reducer begins its write, that write is no longer a legitimate result ("cancel(err) makes the call
+\* return that error"): only the outcomes of the causes remain.
+OrderedOutcomes(s) == {MapOut(s.api, o) : o \in CauseOutcomes(s)}
+\* the directed scenarios: two items, the generator is held after the first one, the reducer does not read the pipe and
+\* writes once - but only after the driver has observed the cancel (of the mapper of item 1) / the context's
+\* cancellation (handled by the caller) to be recorded
+Directed(s, o) ==
+  /\ s.api \in {"MapReduce", "MapReduceChan"} /\ s.n = 2 /\ s.workers \in 1..2
+  /\ s.rstop = 0 /\ s.rw = 1 /\ s.rend = "ret" /\ s.genk = -1
+  /\ \/ o = "cancel-before-write" /\ s.ctx = "bg" /\ s.mb[1] \in {"cancelE", "cancelNil"} /\ s.mb[2] \in {"w0", "w1"}
+     \/ o = "ctx-before-write" /\ s.ctx = "during" /\ s.mb[1] \in {"w0", "w1"} /\ s.mb[2] \in {"w0", "w1"}
+
 \* "without cancellation": nothing abnormal at all in the scenario
 NoCause(s) == /\ CancelIdx(s) = {} /\ PanicIdx(s) = {} /\ LateIdx(s) = {} /\ ~GenPanics(s)
               /\ s.ctx = "bg" /\ s.rend = "ret" /\ s.rw <= 1
